@@ -15,7 +15,7 @@ R04.7 self-reference safety: an in-place mutator never reads through a raw point
 """
 import re
 
-from ..effects import func_roles
+from ..effects import func_roles, const_pointee
 from .. import order, witness
 from . import own, c20
 from .common import short, fn_loc, class_of, is_ctor, is_dtor
@@ -173,6 +173,42 @@ def self_reference(run, m, F, E):
     return n
 
 
+LIBOBJ_RET = re.compile(r'^%"class\.ST::(buffer|string|string_stream)(\.\d+)?"\*$')
+
+
+def value_results(run, m, F, E, tag=''):
+    """R04.8: a function that returns a library object by reference may derive that reference only from an object it is allowed to
+    modify (this of a non-const member, a non-const reference parameter: the operator= / operator+= / operator<< chaining idiom).
+    A reference derived from a const `this` or a const-reference parameter hands the caller an alias of the source, not a value
+    that owns its storage.  Provenance of the returned pointer comes from the whole-module effect summaries."""
+    n = viol = 0
+    for name in F.lib:
+        f = m.func(name)
+        if not LIBOBJ_RET.match(f.ret or ''):
+            continue
+        n += 1
+        roles = func_roles(f)
+        prov = E.sum[name]['ret']
+        bad = []
+        for o in prov:
+            if not (isinstance(o, tuple) and o[0] == 'p'):
+                continue
+            k = o[1]
+            r = roles[k] if k < len(roles) else None
+            if r is None and k == f.this_index() and class_of(f):
+                r = 'this'          # ref-qualified members (`const &`): the demangled parameter list is not parsed, the mangling still tells
+            if r == 'this':
+                if f.is_const_method():
+                    bad.append('its own object (const member)')
+            elif isinstance(r, str) and r != 'sret' and const_pointee(r) and ('&' in r or '*' in r):
+                bad.append('its parameter `%s`' % r)
+        if bad:
+            viol += 1
+        run.ob('R04.8' + tag, short(f.dem), not bad, 'returns a reference into %s, which it may only read: the caller receives an alias of the source, not a value owning its storage' % bad[0]
+               if bad else 'the returned reference is to an object the function may modify (chaining idiom)', loc=fn_loc(f))
+    return n, viol
+
+
 def witnesses(run):
     res, stray = witness.run_witnesses()
     run.need(not stray, 'witness TU has errors outside witness lines:\n' + '\n'.join(stray[:5]))
@@ -204,6 +240,20 @@ def check(run):
     run.floor('mutators of ST::string', mutators(run, m, F, E), 60)
     run.floor('in-place mutators with raw pointer / view arguments', self_reference(run, m, F, E), 8)
     run.floor('compile-fail witnesses', witnesses(run), 12)
+    nv, _ = value_results(run, m, F, E)
+    run.floor('functions returning a library object by reference', nv, 60)
+    # positive control for the expected-zero rule R04.8
+    import os
+    from .. import facts as factsmod, effects as effmod, frontend
+    mc = run.module(tu='controls.cpp')
+    mc.repo_include = os.path.join(frontend.VERIF, 'gen') + '/'
+    Fc = factsmod.Facts(mc)
+    Ec = effmod.Effects(Fc)
+    sub = type(run)(run.prop, run.tier)
+    value_results(sub, mc, Fc, Ec)
+    run.need(any(o['verdict'] == 'violated' and 'alias_of' in o['subject'] for o in sub.obs),
+             'positive control gen/controls.cpp: rule R04.8 did not fire on its planted violation')
+    run.counts['positive controls fired'] = 1
     for r in ('R04.1', 'R04.2', 'R04.4', 'R04.7', 'R04.5'):
         for o in [o for o in run.obs if o['rule'] == r][:2]:
             run.sample(dict(rule=o['rule'], subject=o['subject'], verdict=o['verdict'], detail=o['detail'][:160]))
